@@ -316,8 +316,25 @@ pub fn mk_rb(b: &Rb) -> ReportBlockBuilder {
     bld
 }
 
+/// The eight item kinds RFC 3550 names are configured the way an application names them: through the crate's
+/// public constants (`SdesItem::CNAME` … `SdesItem::PRIV`), not through the number – so that a configuration
+/// "a TOOL item" owes the RFC's type octet 6 on the wire whatever the constant says.
+pub fn item_type_as_named(t: u8) -> u8 {
+    match t {
+        1 => SdesItem::CNAME,
+        2 => SdesItem::NAME,
+        3 => SdesItem::EMAIL,
+        4 => SdesItem::PHONE,
+        5 => SdesItem::LOC,
+        6 => SdesItem::TOOL,
+        7 => SdesItem::NOTE,
+        8 => SdesItem::PRIV,
+        o => o,
+    }
+}
+
 pub fn mk_item<'a>(i: &'a Item) -> SdesItemBuilder<'a> {
-    let mut b = SdesItem::builder(i.type_, i.value.as_str());
+    let mut b = SdesItem::builder(item_type_as_named(i.type_), i.value.as_str());
     if probing() {
         let _ = b.write_into(&mut []);
     }
